@@ -197,7 +197,7 @@ func (f c03flow) yaml() string {
 func runC03(s *kernel.Sim) {
 	tp := s.Tape
 	hosts := []string{"a.com", "b.io"}
-	alpha := []string{"x", "y", "z"}
+	alpha := []string{"x", "y", "z", "X"} // "X" and "x" are different literal segments
 	nFlows := tp.Range(1, 4)
 	var flows []c03flow
 	seenURL := map[string]int{}
@@ -208,7 +208,7 @@ func runC03(s *kernel.Sim) {
 			if tp.Chance(1, 4) {
 				f.segs = append(f.segs, "{p}")
 			} else {
-				f.segs = append(f.segs, alpha[tp.Choose(3)])
+				f.segs = append(f.segs, alpha[tp.Choose(4)])
 			}
 		}
 		f.wild = tp.Chance(1, 3)
@@ -262,14 +262,14 @@ func runC03(s *kernel.Sim) {
 			t.host = f.host
 			for _, sg := range f.segs {
 				if sg == "{p}" {
-					sg = []string{"x", "y", "z", "w"}[tp.Choose(4)]
+					sg = []string{"x", "y", "z", "w", "X", "Y"}[tp.Choose(6)]
 				}
 				t.segs = append(t.segs, sg)
 			}
 			switch tp.Choose(5) {
 			case 1: // extra trailing segment(s)
 				for k := tp.Range(1, 2); k > 0; k-- {
-					t.segs = append(t.segs, []string{"x", "y", "z", "w"}[tp.Choose(4)])
+					t.segs = append(t.segs, []string{"x", "y", "z", "w", "X", "Y"}[tp.Choose(6)])
 				}
 			case 2: // missing trailing segment
 				if len(t.segs) > 0 {
@@ -277,13 +277,13 @@ func runC03(s *kernel.Sim) {
 				}
 			case 3: // one segment replaced
 				if len(t.segs) > 0 {
-					t.segs[tp.Choose(len(t.segs))] = []string{"x", "y", "z", "w"}[tp.Choose(4)]
+					t.segs[tp.Choose(len(t.segs))] = []string{"x", "y", "z", "w", "X", "Y"}[tp.Choose(6)]
 				}
 			}
 		} else {
 			t.host = hosts[tp.Choose(2)]
 			for d := tp.Range(0, 4); d > 0; d-- {
-				t.segs = append(t.segs, []string{"x", "y", "z", "w"}[tp.Choose(4)])
+				t.segs = append(t.segs, []string{"x", "y", "z", "w", "X", "Y"}[tp.Choose(6)])
 			}
 		}
 		txns = append(txns, t)
